@@ -652,11 +652,12 @@ class Builder:
     ``betas``: {name: (value, lb, ub, status)}.  The same Python tuple *object* met twice yields the same
     expression object when ``share`` is true (sharing experiments); equal-but-distinct tuples never share."""
 
-    def __init__(self, betas, share=False, raw_numbers=True):
+    def __init__(self, betas, share=False, raw_numbers=True, av_order='same'):
         self.betas = betas
         self.share = share
         self.raw = raw_numbers
         self.memo = {}
+        self.av_order = av_order  # order of the availability dictionary relative to the utilities: same | reversed | rotated
 
     def leaf_or_raw(self, t):
         """Operand for an operator overload: raw Python number/bool for constant leaves."""
@@ -754,7 +755,12 @@ class Builder:
         if k in ('loglogit', 'logit'):
             util = {a: self.leaf_or_raw(u) for a, u, av in t[2]}
             full = all(av is None for _, _, av in t[2])
-            av = None if full else {a: (1 if av is None else self.leaf_or_raw(av)) for a, u, av in t[2]}
+            alts = list(t[2])
+            if self.av_order == 'reversed':
+                alts = alts[::-1]
+            elif self.av_order == 'rotated':
+                alts = alts[1:] + alts[:1]
+            av = None if full else {a: (1 if av is None else self.leaf_or_raw(av)) for a, u, av in alts}
             ch = self.leaf_or_raw(t[1])
             return (models.loglogit if k == 'loglogit' else models.logit)(util, av, ch)
         if k == 'integrate':
